@@ -65,9 +65,10 @@ type Prog struct {
 	fnSite map[*ssa.Function][]*CallSite
 	fa     map[*ssa.Function]*FuncFacts
 
-	cgVTA *callgraph.Graph
-	cgCHA *callgraph.Graph
-	pi    *provIndex
+	cgVTA    *callgraph.Graph
+	cgCHA    *callgraph.Graph
+	pi       *provIndex
+	consOnly map[FieldKey]bool
 }
 
 func relPkg(path string) string {
@@ -117,7 +118,7 @@ func Load(cfg LoadConfig) (*Prog, error) {
 	}
 	p := &Prog{Cfg: cfg, Pkgs: pkgs, SPkgs: map[string]*ssa.Package{}, byKey: map[string]*ssa.Function{},
 		stores: map[FieldKey][]*StoreSite{}, gstore: map[*ssa.Global][]*StoreSite{},
-		sites: map[string][]*CallSite{}, fnSite: map[*ssa.Function][]*CallSite{}, fa: map[*ssa.Function]*FuncFacts{}}
+		sites: map[string][]*CallSite{}, fnSite: map[*ssa.Function][]*CallSite{}, fa: map[*ssa.Function]*FuncFacts{}, consOnly: map[FieldKey]bool{}}
 	if len(pkgs) > 0 {
 		p.Fset = pkgs[0].Fset
 	}
